@@ -7,10 +7,10 @@ def run(ctx):
     if ctx.replay:
         ctx.run_shards(b, "TestVerifC08", 1, 600, "c08")
     else:
-        driver.run_scaled(ctx, b, "TestVerifC08", 14, 3000, "c08")
+        driver.run_scaled(ctx, b, "TestVerifC08", 16, 3000, "c08")
     if ctx.tier == "thorough" and not ctx.replay:
         br = ctx.build("internal/zzverif/c08", race=True)
-        ctx.run_shards(br, "TestVerifC08", 14, 3000, "c08race", extra_env={"VERIF_TIER": "quick"}, race=True)
+        ctx.run_shards(br, "TestVerifC08", 16, 3000, "c08race", extra_env={"VERIF_TIER": "quick"}, race=True)
     return driver.finish(
         ctx, "exploration",
         "for each of the 8 codecs reachable through enc.FromCode: all strings of length 0-2 (exhaustive), every length 0..N "
